@@ -18,6 +18,10 @@ def plan(tier, seed):
             ch("C06", F, "h_columns_arg", t, ["api.ParquetFile.to_pandas", "api.ParquetFile._get_index",
                                               "util.check_column_names"]),
             ch("C06", F, "h_range_index", t, ["api.ParquetFile.pre_allocate"]),
+            # iter_row_groups locates each row group in the handle's list with ==
+            dict(ch("C06", "vf/pyxlift/h_c10rt.py", "h_dict_eq_distinguishes", 200 if tier == "quick" else 900,
+                    ["cencoding.dict_eq (lifted)", "cencoding.ThriftObject.__eq__"], shape=dict(struct="ColumnChunk"),
+                    env=dict(VERIF_STRUCT="ColumnChunk")), name="C06-h_dict_eq_distinguishes[ColumnChunk]"),
             ch("C06", "vf/pyshim/h_c17.py", "h_slice_dtypes", t,
                ["api.ParquetFile.__getitem__", "api.ParquetFile.__getstate__", "api.ParquetFile.__setstate__"]),
             dict(name="C06-lemma-range-index", kind="pyfunc", timeout=300,
